@@ -326,6 +326,12 @@ Definition confined (G : guard_map) (fetchers : list (string * string * list str
                        | None => existsb (fun g => String.eqb (snd g) (strct ++ "." ++ f)) G
                        end) fields end) fetchers.
 
+(* a function literal used as status fetcher (program, name it is stored under, fields / methods of the
+   program's controller struct it touches) runs outside the Listener mutex as well: it must touch
+   none of the state the handlers own under that mutex *)
+Definition fetcher_closures_confined (cl : list (string * string * list string)) : bool :=
+  forallb (fun x : string * string * list string => match snd x with [] => true | _ => false end) cl.
+
 (* ---- notifications come after the state they announce ----
    A handler tells an independent status reconciler that an object changed by invoking a callback
    (a blocking hand-over on an unbuffered channel in the programs); the reconciler may run at once
@@ -564,3 +570,28 @@ Section RecursiveRLock.
   Definition rrstuck (nested : bool) (s : rrstate) : Prop := forall s', ~ rrstep nested s s'.
   Definition rrfinished (s : rrstate) : Prop := rr_r s = RPdone /\ rr_w s = WPdone.
 End RecursiveRLock.
+
+(* ---- the Listener wrappers release their mutex by a DEFERRED unlock ----
+   (obligation repo_wrappers_unlock_deferred on the generated facts: [wu] lists every Listener method
+   that takes the Listener mutex with "every unlock is a deferred one"; every registered handler is
+   among them) *)
+Definition wrappers_unlock_deferred (registered : list (string * string)) (wu : list (string * bool)) : bool :=
+  forallb (fun w : string * bool => snd w) wu
+  && forallb (fun r : string * string => existsb (fun w : string * bool => String.eqb (fst w) ("Listener." ++ snd r)) wu) registered.
+
+(* ---- why: a handler may PANIC, and controller-runtime recovers the reconcile ----
+   Pattern model (a separate small system, like the ones above).  One delivery of an event through a
+   wrapper: Lock; handler; Unlock.  The handler returns or panics; on a panic the goroutine unwinds:
+   deferred calls run, the statements after the call do not.  A delivery can start only when the
+   mutex is free; [served] counts the deliveries of a sequence that get the mutex. *)
+Section PanicUnlock.
+  Inductive outcome := Returns | Panics.
+  (* the mutex after a delivery that started with the mutex free *)
+  Definition held_after (deferred : bool) (o : outcome) : bool :=
+    match o with Returns => false | Panics => negb deferred end.
+  Fixpoint served (deferred held : bool) (os : list outcome) : nat :=
+    match os with
+    | [] => 0
+    | o :: r => if held then 0 else S (served deferred (held_after deferred o) r)
+    end.
+End PanicUnlock.
